@@ -33,6 +33,8 @@ type c11Case struct {
 	FollowUp  string `json:"follow_up"` // again | twice | close | close-then-call | clone
 	// Conn selects which dialled connection carries the fault (0 = the first one)
 	Conn int `json:"conn"`
+	// CloseMs > 0: closing a connection takes the client's transport this long (a closing handshake, a lingering socket)
+	CloseMs int `json:"transport_close_takes_ms,omitempty"`
 }
 
 func faultErr(kind, op string) error {
@@ -201,6 +203,7 @@ func c11Bubble(c c11Case) c11Result {
 			return nil, errors.New("memnet: connection refused")
 		}
 		a, b := memnet.Pipe()
+		a.CloseDelay = time.Duration(c.CloseMs) * time.Millisecond
 		if n == c.Conn {
 			switch c.Dir {
 			case "read":
@@ -335,7 +338,7 @@ func c11Bubble(c c11Case) c11Result {
 		if cl != nil {
 			// a closed client leaves nothing behind, whatever its peers do (they are all still connected here)
 			synctest.Wait()
-			time.Sleep(time.Second)
+			time.Sleep(time.Second + time.Duration(c.CloseMs)*time.Millisecond) // (a transport that is closing has finished)
 			synctest.Wait()
 			for k, v := range census.Count("kmipclient.(*conn).readloop", "kmipclient.(*conn).writeloop") {
 				if v != 0 {
@@ -346,7 +349,7 @@ func c11Bubble(c c11Case) c11Result {
 		if cl == nil && derr != nil {
 			// Dial failed: there is no client to close, so everything it opened must be gone already (the peers are still connected)
 			synctest.Wait()
-			time.Sleep(time.Second)
+			time.Sleep(time.Second + time.Duration(c.CloseMs)*time.Millisecond) // (a transport that is closing has finished)
 			synctest.Wait()
 			for k, v := range census.Count("kmipclient.(*conn).readloop", "kmipclient.(*conn).writeloop") {
 				if v != 0 {
@@ -365,7 +368,7 @@ func c11Bubble(c c11Case) c11Result {
 		}
 		srv.mu.Unlock()
 		synctest.Wait()
-		time.Sleep(time.Second)
+		time.Sleep(time.Second + time.Duration(c.CloseMs)*time.Millisecond) // (a transport that is closing has finished)
 		synctest.Wait()
 		cnt := census.Count("kmipclient.(*conn).readloop", "kmipclient.(*conn).writeloop")
 		for k, v := range cnt {
@@ -648,6 +651,15 @@ func c11Space() []c11Case {
 						add("write", at, k)
 					}
 				}
+				if reachable && (fu == "again" || fu == "twice" || fu == "clone") {
+					// the same faults on a transport whose Close takes half a second: the follow-up is made while the
+					// connection that failed is still closing
+					for _, dk := range [][2]string{{"write", "reset"}, {"write", "short-write"}, {"write", "closed"}, {"read", "reset"}, {"read", "eof"}} {
+						for at := 1; at <= 3; at++ {
+							out = append(out, c11Case{Enforced: enforced, Dir: dk[0], At: at, Kind: dk[1], Reachable: true, FollowUp: fu, CloseMs: 500})
+						}
+					}
+				}
 				for at := 1; at <= 3; at++ {
 					add("server-close-after-reply", at, "")
 				}
@@ -693,7 +705,7 @@ func c11Space() []c11Case {
 
 func TestC11Faults(t *testing.T) {
 	const name = "TestC11Faults"
-	rec := evid.New("C11", name, "fault enumeration (single caller, synctest bubble): every Read index 1..7 and Write index 1..3 of the first connection x {EOF, closed, reset, short write, reset reported after the data was delivered}, the server closing right after its 1st..3rd reply, a server that keeps accepting and dropping every connection (on accept, after 8 bytes, after the whole request) from the 1st/2nd/3rd connection on, Close() landing while a call is re-dialling (the dial then succeeds), the first connection lost during version negotiation and the negotiation failing on the replacement (Dial fails: nothing it opened may remain), the server going away exactly when the k-th request is about to be handed to the write loop, and the k-th call abandoned (context cancelled) between send and receive once its response has been read off the wire (yield-point hooks), "+
+	rec := evid.New("C11", name, "fault enumeration (single caller, synctest bubble): every Read index 1..7 and Write index 1..3 of the first connection x {EOF, closed, reset, short write, reset reported after the data was delivered} (also on a transport whose Close takes 500 ms, the follow-up being made while the failed connection is still closing), the server closing right after its 1st..3rd reply, a server that keeps accepting and dropping every connection (on accept, after 8 bytes, after the whole request) from the 1st/2nd/3rd connection on, Close() landing while a call is re-dialling (the dial then succeeds), the first connection lost during version negotiation and the negotiation failing on the replacement (Dial fails: nothing it opened may remain), the server going away exactly when the k-th request is about to be handed to the write loop, and the k-th call abandoned (context cancelled) between send and receive once its response has been read off the wire (yield-point hooks), "+
 		"x {with, without version negotiation} x {server reachable afterwards, not} x follow-up {call again, twice, Close, Close then call, Clone}; two calls precede the follow-up; "+
 		"oracle: every call and Dial/Close/Clone returns (quiescence = hang verdict), response complete and its own or an error, never two consecutive failed calls on a reachable server, <= 4 transmissions per request and a bounded number of connections per call, a closed client serves nothing and dials nothing, census of client connection goroutines 0 at the end; "+
 		"non-trivial = a fault is injected; distinct by case").Attach(t)
@@ -749,8 +761,9 @@ func TestC11Random(t *testing.T) {
 		default:
 			c.At = rapid.IntRange(1, 5).Draw(rt, "at")
 		}
+		c.CloseMs = rapid.SampledFrom([]int{0, 0, 0, 1, 500, 4000}).Draw(rt, "closems")
 		key, _ := json.Marshal(c)
-		rec.Case(true, key, "fault="+c.Dir)
+		rec.Case(true, key, "fault="+c.Dir, fmt.Sprintf("slowclose=%v", c.CloseMs > 0))
 		if rec.WantSample() {
 			rec.Sample(c)
 		}
